@@ -260,3 +260,10 @@ SUBS = [
     Sub("trees_rand", fn=check_tree, strategy=random_tree, quick=(8, 150), thorough=(16, 2500), timeout_quick=300, timeout_thorough=3000),
 ]
 FLOOR = {"trees_enum": 1000, "trees_rand": 1000}
+
+MANIFEST = {
+    "category": "exploration",
+    "technique": "bounded exhaustive enumeration + Hypothesis-sampled scenario trees against a reference predicate",
+    "text": "All scenario trees of <=2 (quick) / <=3 (thorough) nodes over a reduced resource universe are enumerated and larger trees (<=8 nodes, more statuses, partially linked parameters) are sampled with Hypothesis; both lifecycle checks run on real cases in a real ScenarioRecorder after every node and are compared with the statement's predicate in both directions. Exploration: a green run is 'held on everything explored'.",
+    "note": "Trusts CPython and Hypothesis as generator/shrinker; cases recorded by hand rather than by a live state machine; the plural heuristic of path matching is not exercised.",
+}
